@@ -953,14 +953,11 @@ class UserCellsImpl(CellsImpl):
 
         if flags & self.PROP_FORMULA:
 
+            # func is a Formula created by SpaceManager.set_cells_property
             if isinstance(func, NullFormula):
                 self.formula = NULL_FORMULA
             else:
-                if isinstance(func, Formula):
-                    cls = func.__class__
-                else:
-                    cls = Formula
-                self.formula = cls(func, name=self.name)
+                self.formula = func
 
             self.altfunc = CellsBoundFunction(self)
 
